@@ -8,6 +8,7 @@ import (
 	"context"
 	"errors"
 	"io"
+	"strings"
 	"sync"
 
 	"github.com/oneconcern/datamon/pkg/storage"
@@ -37,10 +38,21 @@ type Group struct {
 	// FailOnceAt: the k-th mutating call fails with a transient error and does not land; the
 	// process lives on (no crash). 0 = never.
 	FailOnceAt int
-	count   int
-	dead    bool
-	Writes  []Write
+	// FailReadAt: the k-th non-mutating call (Has, Get, GetAttr, GetAt, Keys, KeysPrefix) fails once
+	// with a transient error. 0 = never. FailReadKey, when set, restricts the count to calls whose
+	// key (or listing prefix) contains it.
+	FailReadAt  int
+	FailReadKey string
+	// Hook, when set, runs before every call, outside the group's lock (delays, rendezvous).
+	Hook   func(store, op, key string)
+	count  int
+	reads  int
+	dead   bool
+	Writes []Write
 }
+
+// Reads is the number of non-mutating calls counted so far (those matching FailReadKey).
+func (g *Group) Reads() int { g.mu.Lock(); defer g.mu.Unlock(); return g.reads }
 
 // Dead reports whether the crash point has been reached.
 func (g *Group) Dead() bool { g.mu.Lock(); defer g.mu.Unlock(); return g.dead }
@@ -64,13 +76,24 @@ type Store struct {
 }
 
 // Wrap returns a wrapper of inner belonging to group g.
-func Wrap(g *Group, name string, inner storage.Store) *Store { return &Store{g: g, name: name, inner: inner} }
+func Wrap(g *Group, name string, inner storage.Store) *Store {
+	return &Store{g: g, name: name, inner: inner}
+}
 
-func (s *Store) alive() error {
+func (s *Store) alive(op, key string) error {
+	if h := s.g.Hook; h != nil {
+		h(s.name, op, key)
+	}
 	s.g.mu.Lock()
 	defer s.g.mu.Unlock()
 	if s.g.dead {
 		return ErrCrashed
+	}
+	if s.g.FailReadKey == "" || strings.Contains(key, s.g.FailReadKey) {
+		s.g.reads++
+		if s.g.FailReadAt != 0 && s.g.reads == s.g.FailReadAt {
+			return ErrTransient
+		}
 	}
 	return nil
 }
@@ -78,6 +101,9 @@ func (s *Store) alive() error {
 // mutate runs a mutating call under the group's lock (mutating calls are serialised, which is
 // how the crash prefix is well defined).
 func (s *Store) mutate(op, key string, noOverwrite bool, do func() error) error {
+	if h := s.g.Hook; h != nil {
+		h(s.name, op, key)
+	}
 	s.g.mu.Lock()
 	defer s.g.mu.Unlock()
 	if s.g.dead {
@@ -109,28 +135,28 @@ func (s *Store) mutate(op, key string, noOverwrite bool, do func() error) error 
 func (s *Store) String() string { return "crash://" + s.name }
 
 func (s *Store) Has(ctx context.Context, k string) (bool, error) {
-	if err := s.alive(); err != nil {
+	if err := s.alive("has", k); err != nil {
 		return false, err
 	}
 	return s.inner.Has(ctx, k)
 }
 
 func (s *Store) Get(ctx context.Context, k string) (io.ReadCloser, error) {
-	if err := s.alive(); err != nil {
+	if err := s.alive("get", k); err != nil {
 		return nil, err
 	}
 	return s.inner.Get(ctx, k)
 }
 
 func (s *Store) GetAttr(ctx context.Context, k string) (storage.Attributes, error) {
-	if err := s.alive(); err != nil {
+	if err := s.alive("getattr", k); err != nil {
 		return storage.Attributes{}, err
 	}
 	return s.inner.GetAttr(ctx, k)
 }
 
 func (s *Store) GetAt(ctx context.Context, k string) (io.ReaderAt, error) {
-	if err := s.alive(); err != nil {
+	if err := s.alive("getat", k); err != nil {
 		return nil, err
 	}
 	return s.inner.GetAt(ctx, k)
@@ -162,14 +188,14 @@ func (s *Store) Clear(ctx context.Context) error {
 }
 
 func (s *Store) Keys(ctx context.Context) ([]string, error) {
-	if err := s.alive(); err != nil {
+	if err := s.alive("keys", ""); err != nil {
 		return nil, err
 	}
 	return s.inner.Keys(ctx)
 }
 
 func (s *Store) KeysPrefix(ctx context.Context, token, prefix, delimiter string, count int) ([]string, string, error) {
-	if err := s.alive(); err != nil {
+	if err := s.alive("keysprefix", prefix); err != nil {
 		return nil, "", err
 	}
 	return s.inner.KeysPrefix(ctx, token, prefix, delimiter, count)
